@@ -274,7 +274,7 @@ func scenario(sp spec) *mc.Scenario {
 	return &mc.Scenario{Name: name, Body: body, Check: check, Model: sched.Deviation, NoCache: true}
 }
 
-func plans(tier string) []mc.Plan {
+func basePlans(tier string) []mc.Plan {
 	var ps []mc.Plan
 	texts := []string{"", "x", "a\x00b\xff\nc\r\n", "100% full %d %s %%", strings.Repeat("long-error-", 6400)}
 	codes := []uint64{0, 1, 2, 12, 1 << 32, 1<<64 - 1}
@@ -303,6 +303,16 @@ func plans(tier string) []mc.Plan {
 		ps = append(ps, mc.Plan{Scen: scenario(spec{shape: shape, wrap: "none"}), Bounds: []int{0, 1}})
 	}
 	return ps
+}
+
+// plans adds, to every scenario, a twin explored relative to the reversed default schedule (a
+// second reference schedule for the deviation bound).
+func plans(tier string) []mc.Plan {
+	ps := basePlans(tier)
+	if tier == "thorough" {
+		return mc.WithReversed(ps, 1)
+	}
+	return mc.WithReversed(ps, 1)
 }
 
 func init() {
